@@ -584,50 +584,97 @@ def convOfText (t : Option String) : Offsets.Conv :=
   | some s => if s.isEmpty then none else some (Offsets.table (s.toList.map Char.toNat))
   | none => none
 
-/-- third pass: build the CAS, its views and indexes -/
-def buildCas (K : Consts) (ts : TypeSystem) (ci : Nat) (lenient : Bool) (p : Pass1) (hp : Heap) : Except Err Loaded := do
-  let h0 : Handle := { view := Cas.INITIAL_VIEW, lenient := lenient }
-  let mut c := Cas.empty
-  let mut heap := hp
-  let mut converted : List Int := []
-  for (_, s) in p.sofas do
-    let h : Handle := { view := s.sofaID, lenient := lenient }
-    if s.sofaID == Cas.INITIAL_VIEW then
-      c ← Cas.updSofa c h0 (fun so => { so with xid := s.xid, sofaNum := s.num })
+/-- state of the third pass: the CAS under construction, the heap, the ids whose offsets were converted -/
+structure Build where
+  cas : Cas
+  heap : Heap
+  converted : List Int := []
+
+/-- index the members of one view (ids remembered as dropped by a lenient first pass are skipped) -/
+def addMembers (ts : TypeSystem) (ci : Nat) (h : Handle) (conv : Offsets.Conv) (lenientIds : List Int)
+    (fss : List (Int × Nat)) : List Int → Build → Except Err Build
+  | [], b => .ok b
+  | m :: ms, b =>
+    if lenientIds.contains m then addMembers ts ci h conv lenientIds fss ms b
     else
-      let (c', _) ← Cas.createView c h0 s.sofaID (some s.xid) (some s.num)
-      c := c'
+      match lookupFs fss m with
+      | .error e => .error e
+      | .ok a =>
+        match b.heap[a]? with
+        | none => .error .attributeError
+        | some o =>
+          let r : Except Err (Heap × List Int) :=
+            if isInstanceOf ts o.ty ANNOTATION then
+              match convertOffsets conv b.heap a with
+              | .error e => .error e
+              | .ok hp' => .ok (hp', b.converted ++ [m])
+            else .ok (b.heap, b.converted)
+          match r with
+          | .error e => .error e
+          | .ok (hp1, cv1) =>
+            match Cas.add ts ci b.cas hp1 h a true with
+            | .error e => .error e
+            | .ok (c', hp2) => addMembers ts ci h conv lenientIds fss ms { cas := c', heap := hp2, converted := cv1 }
+
+/-- create / fill the view of one sofa and index its members -/
+def buildView (ts : TypeSystem) (ci : Nat) (lenient : Bool) (p : Pass1) (s : PSofa) (b : Build) : Except Err Build :=
+  let h0 : Handle := { view := Cas.INITIAL_VIEW, lenient := lenient }
+  let h : Handle := { view := s.sofaID, lenient := lenient }
+  let c1 : Except Err Cas :=
+    if s.sofaID == Cas.INITIAL_VIEW then
+      Cas.updSofa b.cas h0 (fun so => { so with xid := s.xid, sofaNum := s.num })
+    else
+      match Cas.createView b.cas h0 s.sofaID (some s.xid) (some s.num) with
+      | .error e => .error e
+      | .ok (c', _) => .ok c'
+  match c1 with
+  | .error e => .error e
+  | .ok c1 =>
     let conv := convOfText s.text
-    c ← Cas.updSofa c h (fun so => { so with text := s.text.map (fun t => t.toList.map Char.toNat), conv := conv, mime := s.mime })
-    let members := match p.views.find? (fun q => q.1 == s.xid) with
-      | some q => q.2.members
-      | none => []
-    for m in members do
-      if p.lenientIds.contains m then continue
-      let a ← lookupFs p.fss m
-      let o ← match heap[a]? with
-        | some o => pure o
-        | none => throw Err.attributeError
-      if isInstanceOf ts o.ty ANNOTATION then
-        heap ← convertOffsets conv heap a
-        converted := converted ++ [m]
-      let (c', heap') ← Cas.add ts ci c heap h a true
-      c := c'
-      heap := heap'
-  -- annotations that are only referenced
-  for (i, a) in p.fss do
-    if converted.contains i then continue
-    let o ← match heap[a]? with
-      | some o => pure o
-      | none => throw Err.attributeError
-    if isInstanceOf ts o.ty ANNOTATION then
-      match slot heap a "sofa" with
-      | some (.sofa _ vn) =>
-        match p.sofas.find? (fun q => q.2.sofaID == vn) with
-        | some q => heap ← convertOffsets (convOfText q.2.text) heap a
-        | none => pure ()
-      | _ => pure ()
-  pure { cas := { c with nextXid := p.maxId + 1, nextSofaNum := p.maxNum + 1 }, heap := heap }
+    match Cas.updSofa c1 h (fun so => { so with text := s.text.map (fun t => t.toList.map Char.toNat), conv := conv, mime := s.mime }) with
+    | .error e => .error e
+    | .ok c2 =>
+      let members := match p.views.find? (fun q => q.1 == s.xid) with
+        | some q => q.2.members
+        | none => []
+      addMembers ts ci h conv p.lenientIds p.fss members { b with cas := c2 }
+
+def buildViews (ts : TypeSystem) (ci : Nat) (lenient : Bool) (p : Pass1) : List (Int × PSofa) → Build → Except Err Build
+  | [], b => .ok b
+  | (_, s) :: rest, b =>
+    match buildView ts ci lenient p s b with
+    | .error e => .error e
+    | .ok b' => buildViews ts ci lenient p rest b'
+
+/-- annotations that are only referenced: their offsets are converted with the text of the sofa they point to -/
+def convertReferenced (ts : TypeSystem) (p : Pass1) (converted : List Int) : List (Int × Nat) → Heap → Except Err Heap
+  | [], heap => .ok heap
+  | (i, a) :: rest, heap =>
+    if converted.contains i then convertReferenced ts p converted rest heap
+    else
+      match heap[a]? with
+      | none => .error .attributeError
+      | some o =>
+        if isInstanceOf ts o.ty ANNOTATION then
+          match slot heap a "sofa" with
+          | some (.sofa _ vn) =>
+            match p.sofas.find? (fun q => q.2.sofaID == vn) with
+            | some q =>
+              match convertOffsets (convOfText q.2.text) heap a with
+              | .error e => .error e
+              | .ok heap' => convertReferenced ts p converted rest heap'
+            | none => convertReferenced ts p converted rest heap
+          | _ => convertReferenced ts p converted rest heap
+        else convertReferenced ts p converted rest heap
+
+/-- third pass: build the CAS, its views and indexes -/
+def buildCas (_K : Consts) (ts : TypeSystem) (ci : Nat) (lenient : Bool) (p : Pass1) (hp : Heap) : Except Err Loaded :=
+  match buildViews ts ci lenient p p.sofas { cas := Cas.empty, heap := hp } with
+  | .error e => .error e
+  | .ok b =>
+    match convertReferenced ts p b.converted p.fss b.heap with
+    | .error e => .error e
+    | .ok heap => .ok { cas := { b.cas with nextXid := p.maxId + 1, nextSofaNum := p.maxNum + 1 }, heap := heap }
 
 /-- `CasXmiDeserializer.deserialize` -/
 def loadXmi (K : Consts) (ts : TypeSystem) (tsIdx ci : Nat) (lenient : Bool) (hp : Heap) (doc : XDoc) : Except Err Loaded := do
